@@ -19,7 +19,7 @@ import concurrent.futures as cf
 import vlib, gnet
 import n09_net as N
 
-TEMPLATES = ["T2", "T2F", "T1", "T3", "T2H"]
+TEMPLATES = ["T2", "T2F", "T1", "T3", "T2H", "T2X"]
 HALF_ALWAYS = {"T2H"}        # high-precision copy of T2: mirror-half of the sign patterns in both tiers (budget)
 
 # quick: a sub-product that is complete within itself: only the sign patterns whose first noisy sign is '+'
@@ -375,7 +375,7 @@ def main():
     if S["half"]:
         prod += " (quick sub-product: of the sign patterns only those whose first noisy sign is '+', the other half being the mirror image s -> -s; envelope and gso are the two branches of LocalNetwork::vyrovnani_)"
     ck.finish(
-        "five templates (T2H: T2 with 0.004-0.016 mm / 0.07-0.15 cc standard deviations, mirror-half of the sign patterns; T2: 3 fixed + 2 new points on {0,100,200}^2, 3 directions + 3 distances + 1 angle; T2F: the same 5 points as a free network, A B C constrained, 3 more distances, defect 3; "
+        "six templates (T2X: one new point observed by five distances along the coordinate axes only - exactly uncorrelated x, y with q_yy > q_xx and q_xx > q_yy sub-networks; T2H: T2 with 0.004-0.016 mm / 0.07-0.15 cc standard deviations, mirror-half of the sign patterns; T2: 3 fixed + 2 new points on {0,100,200}^2, 3 directions + 3 distances + 1 angle; T2F: the same 5 points as a free network, A B C constrained, 3 more distances, defect 3; "
         "T1: levelling 2 fixed + 3 new heights, 6 height differences; "
         "T3: 3-D 3 fixed + 2 new points, slope distances, zenith angles, a height difference and a vector with full 3x3 cov-mat, no instrument heights); for each template the lattice of "
         "observation subsets reachable from the full network by removing one observation at a time while the reference model keeps it determined (all such subsets, dof from the top value down to 0), "
